@@ -931,8 +931,10 @@ static carquet_status_t load_next_page_mmap(
 
         /* Zero-copy only happens when max_def_level == 0, so all levels are 0.
          * Use memset for O(1) instead of O(n) loop */
-        memset(reader->decoded_def_levels, 0, sizeof(int16_t) * num_values);
-        memset(reader->decoded_rep_levels, 0, sizeof(int16_t) * num_values);
+        if (num_values > 0) {
+            memset(reader->decoded_def_levels, 0, sizeof(int16_t) * num_values);
+            memset(reader->decoded_rep_levels, 0, sizeof(int16_t) * num_values);
+        }
 
         reader->page_loaded = true;
         reader->page_num_values = num_values;
@@ -1328,6 +1330,15 @@ carquet_status_t carquet_read_next_page(
     int32_t to_copy = (int32_t)max_values;
     if (to_copy > available) {
         to_copy = available;
+    }
+
+    if (to_copy <= 0) {
+        /* Nothing to deliver (peek, or a page without values): the buffers may be NULL */
+        *values_read = 0;
+        if (non_null_read) {
+            *non_null_read = 0;
+        }
+        return CARQUET_OK;
     }
 
     /* Copy values from decoded buffers. Decoded values are stored packed (one per
